@@ -110,6 +110,32 @@ Read(i, via, fault) ==
                             [status |-> 200, cert |-> e.cert, find |-> TRUE]))
      /\ UNCHANGED <<queued, tree, known, store, bad>>
 
+\* get-entries over several indices i..j: the entries are resolved one after the other, the request fails at the first
+\* one that cannot be resolved (what was resolved before keeps its effect on the cache); an injected storage fault
+\* strikes the first storage lookup of the request
+RECURSIVE RangeFold(_, _, _, _, _, _)
+RangeFold(k, j, ca, pe, fl, nf) ==
+  IF k > j THEN [ok |-> TRUE, cache |-> ca, pending |-> pe, finds |-> nf, fl |-> fl]
+  ELSE LET e == tree[k]
+           h == ChainOf[e.cert]
+           hit == ~NoCache /\ \E x \in 1..Len(ca) : ca[x] = h
+       IN IF e.layout = "full" THEN RangeFold(k + 1, j, ca, pe, fl, nf)
+          ELSE IF hit THEN RangeFold(k + 1, j, Append(Without(ca, h), h), pe, fl, nf)
+          ELSE IF fl \/ h \notin store \/ bad[h] # "ok"
+               THEN [ok |-> FALSE, cache |-> ca, pending |-> pe, finds |-> nf + 1, fl |-> FALSE]
+          ELSE RangeFold(k + 1, j, ca, IF NoCache THEN pe ELSE Append(pe, h), fl, nf + 1)
+
+ReadRange(i, j, fault) ==
+  /\ i \in 1..Len(tree) /\ j \in 1..Len(tree) /\ i < j
+  /\ fault \in {"none", "findError"}
+  /\ LET r == RangeFold(i, j, cache, pending, fault = "findError", 0)
+     IN /\ fault = "findError" => faults < MaxFaults /\ ~r.fl          \* the fault can only strike when a lookup happens
+        /\ faults' = IF fault = "none" THEN faults ELSE faults + 1
+        /\ cache' = r.cache /\ pending' = r.pending
+        /\ Record(Step("ReadRange", [index |-> i - 1, to |-> j - 1, fault |-> fault],
+                       [status |-> IF r.ok THEN 200 ELSE 500, finds |-> r.finds, sets |-> Len(r.pending) - Len(pending)]))
+  /\ UNCHANGED <<queued, tree, known, store, bad>>
+
 \* the detached goroutine runs
 CacheSetFires ==
   /\ Len(pending) > 0
@@ -146,6 +172,7 @@ Next ==
   \/ \E k \in 1..MaxTree : Sequence(k)
   \/ \E c \in Certs : Legacy(c)
   \/ \E i \in 1..MaxTree, v \in {"entries", "proof"}, f \in {"none", "findError"} : Read(i, v, f)
+  \/ \E i \in 1..MaxTree, j \in 1..MaxTree, f \in {"none", "findError"} : ReadRange(i, j, f)
   \/ CacheSetFires
   \/ \E h \in Chains : DropRow(h)
   \/ \E h \in Chains, k \in CorruptClasses : Corrupt(h, k)
@@ -164,6 +191,12 @@ SameAsDirect == [][last'.op = "Read" /\ last'.reply.status = 200 => last'.reply.
 \* a read that succeeds without the cache had an intact row; a damaged or missing row is an error, never data
 FaultIsError == [][(last'.op = "Read" /\ last'.reply.find /\ last'.reply.status = 200) =>
                       LET h == ChainOf[last'.reply.cert] IN h \in store /\ bad[h] = "ok"]_vars
+
+\* a range is served only when every one of its entries is: whole or error, never a part with something else in it
+RangeWhole == [][(last'.op = "ReadRange" /\ last'.reply.status = 200) =>
+                    \A k \in last'.args.index + 1..last'.args.to + 1 :
+                       LET h == ChainOf[tree[k].cert]
+                       IN tree[k].layout = "full" \/ (h \in store /\ bad[h] = "ok") \/ (\E x \in 1..Len(cache) : cache[x] = h)]_vars
 
 \* legacy entries never need the store
 LegacyUnchanged == [][(last'.op = "Read" /\ tree[last'.args.index + 1].layout = "full") =>
